@@ -67,7 +67,7 @@ var jobKinds = map[string]func(j Job, r *JobResult){}
 
 // exploreJob is the common shape: explore Sys with a configuration hook.
 func exploreJob(j Job, r *JobResult, s Sys, conf func(e *Explorer)) {
-	e := &Explorer{Sys: s, Want: j.Prop, OutGuard: j.Prop == "C17", Beyond: j.Prop == "C17"}
+	e := &Explorer{Sys: s, Want: j.Prop, OutGuard: j.Prop == "C17", Beyond: true}
 	if j.DeadlineS > 0 {
 		e.Deadline = time.Now().Add(time.Duration(j.DeadlineS) * time.Second)
 	}
